@@ -42,8 +42,26 @@ TargetsInRange(removed) ==
      (Len(removed[k].toks) = 2 /\ removed[k].toks[1] \in JumpOps)
        => removed[k].toks[2] \in LineNumbers(Len(removed)) \cup {"ra"}
 
+\* every jump/branch target that is spelled as a name is a label the text defines
+\* (l.tgt = the target operand of a jump or branch line when it is an identifier, "" otherwise)
+UndefinedTarget(lines) == \E k \in 1..Len(lines) : lines[k].tgt # "" /\ lines[k].tgt \notin LabelNames(lines)
+
+\* a jump or branch (not a call) goes to a label of the function it belongs to, except a tail call, which goes to
+\* the entry label of another function (l.fn = owning function of the line as exported by hook H1, "?" unknown;
+\* c.entries = entry labels of the out-of-line functions)
+FnOfLabel(lines, name) == lines[CHOOSE k \in 1..Len(lines) : lines[k].lab = name].fn
+LeavesFunction(lines, entries) ==
+  \E k \in 1..Len(lines) :
+     /\ lines[k].tgt # "" /\ lines[k].tgt \in LabelNames(lines) /\ lines[k].toks[1] \notin {"jal"}
+     /\ lines[k].fn # "?" /\ FnOfLabel(lines, lines[k].tgt) # "?"
+     /\ FnOfLabel(lines, lines[k].tgt) # lines[k].fn
+     /\ lines[k].tgt \notin entries
+
 Verdict(c) ==
-  IF \E t \in Referenced(c.kept) : DefCount(c.kept, t) # 1 THEN "DUPLICATE_LABEL"
+  IF UndefinedTarget(c.kept) THEN "UNDEFINED_LABEL"
+  ELSE IF LeavesFunction(c.kept, {c.entries[i] : i \in 1..Len(c.entries)}) THEN "JUMP_INTO_OTHER_FUNCTION"
+  ELSE IF UndefinedTarget(c.removed) THEN "NAME_LEFT_AS_TARGET"
+  ELSE IF \E t \in Referenced(c.kept) : DefCount(c.kept, t) # 1 THEN "DUPLICATE_LABEL"
   ELSE IF \E k \in 1..Len(c.removed) : IsLabel(c.removed[k]) THEN "LABEL_LEFT"
   ELSE IF Len(Resolve(c.kept)) # Len(c.removed) THEN "LINE_COUNT_DIFFERS"
   ELSE IF \E k \in 1..Len(c.removed) : Resolve(c.kept)[k] # c.removed[k].toks THEN "RESOLVE_MISMATCH"
@@ -58,7 +76,8 @@ Report == /\ verdict \notin {"", "reported"} /\ PrintT(<<"VERDICT", tid, verdict
 Spec == Init /\ [][Judge \/ Report]_<<tid, verdict>>
 
 \* self test of the specification itself
-T1 == << [lab |-> "", toks |-> <<"j", "b">>], [lab |-> "a", toks |-> <<>>], [lab |-> "", toks |-> <<"yield">>],
-         [lab |-> "b", toks |-> <<>>], [lab |-> "", toks |-> <<"jal", "a">>] >>
+T1 == << [lab |-> "", toks |-> <<"j", "b">>, tgt |-> "b", fn |-> ""], [lab |-> "a", toks |-> <<>>, tgt |-> ""], [lab |-> "", toks |-> <<"yield">>, tgt |-> ""],
+         [lab |-> "b", toks |-> <<>>, tgt |-> ""], [lab |-> "", toks |-> <<"jal", "a">>, tgt |-> "a"] >>
 ASSUME Resolve(T1) = << <<"j", "2">>, <<"yield">>, <<"jal", "1">> >>
+ASSUME ~UndefinedTarget(T1) /\ UndefinedTarget(<< [lab |-> "", toks |-> <<"j", "nowhere">>, tgt |-> "nowhere"] >>)
 =============================================================================
